@@ -239,6 +239,48 @@ def gen_history(r, tier):
         h.ins_pod(dst2)
         h.query(q)
         h.query((q[0], q[1], pr, n2))
+    # motif 4: two NetworkPolicies in one namespace, a cached verdict that depends on one of them, which is then deleted
+    if r.random() < 0.3:
+        ns = r.choice(h.nss)
+        a = {'kind': 'Pod', 'ns': ns, 'name': 'nsrc', 'labels': {'app': 'a'}, 'ports': [], 'replicas': None, 'owner': {'name': 'own-nsrc', 'kind': 'ReplicaSet'}}
+        b = {'kind': 'Pod', 'ns': ns, 'name': 'ndst', 'labels': {'app': 'n'}, 'ports': [], 'replicas': None, 'owner': {'name': 'own-ndst', 'kind': 'ReplicaSet'}}
+        h.ins_pod(a); h.ins_pod(b)
+        pr, pt = r.choice(gen.PROTOS), r.choice(gen.PORTS)
+        h.ins_np({'ns': ns, 'name': 'npkeep', 'podSelector': {'matchLabels': {'app': 'n'}}, 'policyTypes': ['Ingress'],
+                  'ingress': [{'ports': [{'protocol': 'TCP', 'port': 9}]}]})
+        h.ins_np({'ns': ns, 'name': 'npgone', 'podSelector': {'matchLabels': {'app': 'n'}}, 'policyTypes': ['Ingress'],
+                  'ingress': [{'ports': [{'protocol': pr, 'port': pt}]}]})
+        q = (('pod', ns + '/nsrc'), ('pod', ns + '/ndst'), pr, pt)
+        h.query(q)
+        h.del_np(ns, 'npgone')
+        h.query(q)
+        if r.random() < 0.5:
+            h.del_np(ns, 'npkeep')
+            h.query(q)
+    # motif 3: three conflicting ANPs on the same peers and port inserted one by one in a non-priority order (the last one
+    # in the middle), then queried: the verdict must follow the priorities, not the insertion order
+    if r.random() < 0.3:
+        ns = r.choice(h.nss)
+        a = {'kind': 'Pod', 'ns': ns, 'name': 'asrc', 'labels': {'app': 'a'}, 'ports': [], 'replicas': None, 'owner': {'name': 'own-asrc', 'kind': 'ReplicaSet'}}
+        b = {'kind': 'Pod', 'ns': ns, 'name': 'adst', 'labels': {'app': 'b'}, 'ports': [], 'replicas': None, 'owner': {'name': 'own-adst', 'kind': 'ReplicaSet'}}
+        h.ins_pod(a); h.ins_pod(b)
+        pr, pt = r.choice(gen.PROTOS), r.choice(gen.PORTS)
+        prios = sorted(r.sample([2, 4, 6, 8, 12, 40, 60, 300, 700, 900], 3))
+        acts = r.choice([('Allow', 'Deny', 'Allow'), ('Deny', 'Allow', 'Deny'), ('Pass', 'Deny', 'Allow'), ('Pass', 'Allow', 'Deny'), ('Allow', 'Allow', 'Deny')])
+        d = r.choice(['ingress', 'egress'])
+        def mk(i):
+            return {'name': 'sw%d' % i, 'priority': prios[i], 'subject': {'namespaces': {}},
+                    d: [{'name': 'r', 'action': acts[i], 'from' if d == 'ingress' else 'to': [{'namespaces': {}}],
+                         'ports': [{'portNumber': {'protocol': pr, 'port': pt}}]}]}
+        order = r.choice([(0, 2, 1), (2, 0, 1), (1, 2, 0), (2, 1, 0), (1, 0, 2)])
+        q = (('pod', ns + '/asrc'), ('pod', ns + '/adst'), pr, pt)
+        for i in order:
+            h.ins_anp(mk(i))
+            if r.random() < 0.5:
+                h.query(q)
+        h.query(q)
+        h.del_anp('sw%d' % r.choice([0, 1, 2]))
+        h.query(q)
     # motif 2: egress allowed, ingress evaluation fails (a selector apimachinery rejects): the error must not turn into a cached verdict
     if r.random() < 0.3:
         # in a namespace of its own: with a second policy selecting the same pod the answer (error or verdict) would depend on the
